@@ -226,7 +226,7 @@ def uniq(sequence: ArrayT, key: object = None) -> list[object]:
         for obj in sequence:
             try:
                 item = obj[key]
-            except KeyError:
+            except (KeyError, IndexError):
                 item = MISSING
             except TypeError as err:
                 raise FilterArgumentError(
@@ -246,8 +246,15 @@ def uniq(sequence: ArrayT, key: object = None) -> list[object]:
 def compact(sequence: ArrayT, key: object = None) -> list[object]:
     """Return a copy of _sequence_ with any nil values removed."""
     if key is not None:
+
+        def _has_value(itm: Any) -> bool:
+            try:
+                return itm[key] is not None
+            except (KeyError, IndexError):
+                return False
+
         try:
-            return [itm for itm in sequence if itm[key] is not None]
+            return [itm for itm in sequence if _has_value(itm)]
         except TypeError as err:
             raise FilterArgumentError(
                 f"can't read property '{key}'", token=None
